@@ -17,6 +17,7 @@ from sx.runner import Unit
 
 ID = "C12"
 FUNCTIONS = [
+    "nessai.samplers.base.BaseNestedSampler.checkpoint",
     "nessai.samplers.base.BaseNestedSampler.__getstate__",
     "nessai.samplers.base.BaseNestedSampler.resume_from_pickled_sampler",
     "nessai.samplers.nestedsampler.NestedSampler.resume_from_pickled_sampler",
@@ -411,6 +412,88 @@ def make_ins(save_log_q, iid):
     return body
 
 
+class _Delta:
+    def __init__(self, s):
+        self.s = s
+
+    def __add__(self, o):
+        return _Delta(self.s + o.s)
+
+    __radd__ = __add__
+
+    def total_seconds(self):
+        return self.s
+
+
+class _Instant:
+    def __init__(self, t):
+        self.t = t
+
+    def __sub__(self, o):
+        return _Delta(self.t - o.t)
+
+
+def make_checkpoint_clock(mode, k):
+    """The real BaseNestedSampler.checkpoint with the clock replaced by arbitrary non-decreasing instants: after any number
+    of checkpoints the accumulated sampling time lies between the time spent sampling (excluding the time spent writing
+    checkpoints) and the wall-clock time since the (re)start, i.e. it is neither reset nor double counted."""
+    def body(ctx):
+        import nessai.samplers.base as base
+        from nessai.samplers.nestedsampler import NestedSampler
+        instants = []
+
+        class _DT:
+            @staticmethod
+            def now():
+                t = ctx.real(ctx.fresh("t"), 0, 1000)
+                if instants:
+                    ctx.assume(t >= instants[-1])
+                instants.append(t)
+                return _Instant(t)
+        fake = type("fake_datetime", (), {"datetime": _DT, "timedelta": datetime.timedelta})
+        ns = NestedSampler.__new__(NestedSampler)
+        s0 = ctx.real("sampling_time_before", 0, 1000)      # a resumed run carries the time of the earlier segments
+        ns.sampling_time = _Delta(s0)
+        ns.history = None
+        ns.iteration = 5
+        ns.checkpoint_on_iteration = True
+        ns._last_checkpoint = 0
+        ns.checkpoint_interval = 1 + ctx.choice("interval", 2) * 100      # met / not met
+        ns.resume_file = "out/resume.pkl"
+        dumps = []
+        ns.checkpoint_callback = (lambda s: dumps.append("cb")) if mode == "callback" else None
+        saved = (base.datetime, base.safe_file_dump)
+        base.datetime = fake
+        base.safe_file_dump = lambda *a, **kw: dumps.append("file")
+        try:
+            ns.sampling_start_time = base.datetime.datetime.now()
+            sampled = 0          # time between (re)start / end of a dump and the next checkpoint call
+            for c in range(k):
+                how = ["signal", "forced", "periodic"][ctx.choice(f"how{c}", 3)]
+                n_before, d_before = len(instants), len(dumps)
+                start = instants[-1]
+                ns.iteration = ns.iteration + 1
+                if how == "signal":
+                    ns.checkpoint(periodic=False)
+                elif how == "forced":
+                    ns.checkpoint(periodic=True, force=True)
+                else:
+                    ns.checkpoint(periodic=True)
+                wrote = len(dumps) > d_before
+                if wrote and len(instants) > n_before:
+                    sampled = sampled + (instants[n_before] - start)
+                else:
+                    ctx.prove(how == "periodic" and ns.checkpoint_interval > 1, "a checkpoint is skipped only when periodic and the interval has not passed")
+                st = ns.sampling_time.total_seconds()
+                wall = instants[-1] - instants[0]
+                ctx.prove(st >= s0 + sampled, "sampling time is not reset: it includes every segment sampled so far")
+                ctx.prove(st <= s0 + wall, "sampling time is not double counted: it never exceeds the earlier total plus the wall-clock time since the (re)start")
+        finally:
+            base.datetime, base.safe_file_dump = saved
+        ctx.cover("end")
+    return body
+
+
 def units(tier):
     us = []
     opts = dict()
@@ -421,4 +504,8 @@ def units(tier):
     for slq in (False, True):
         for iid in (False, True):
             us.append(Unit(f"ins[save_log_q={slq},iid={iid}]", make_ins(slq, iid), MODS, opts, expect_cover=["end"], twin_runs=5, witness_every=1, nproc=1))
+    for mode in ("callback", "file"):
+        k = 2 if tier == "quick" else 4
+        us.append(Unit(f"checkpoint_clock[{mode},checkpoints={k}]", make_checkpoint_clock(mode, k), MODS + ["nessai.samplers.base"], opts, expect_cover=["end"],
+                       twin_runs=20, witness_every=3, nproc=1))
     return us
